@@ -28,8 +28,8 @@ let () =
   let first = ref [] and its = ref [] and cur = ref None in
   let record ev = if !in_run then (match !cur with
       | None -> first := ev :: !first
-      | Some (t, n, evs) -> cur := Some (t, n, ev :: evs)) in
-  let close_it () = (match !cur with Some (t, n, evs) -> its := { i_timeout = t; i_neff = n; i_events = List.rev evs } :: !its | None -> ()); cur := None in
+      | Some (t, n, fl, evs) -> cur := Some (t, n, fl, ev :: evs)) in
+  let close_it () = (match !cur with Some (t, n, fl, evs) -> its := ({ i_timeout = t; i_neff = n; i_events = List.rev evs }, fl) :: !its | None -> ()); cur := None in
   let capply ev = match !cc, !cst with
     | Some c, Some cs ->
         if !trig_pending then (trig_pending := false; if not (trig_ok_t c cs [ev]) then Printf.printf "TRIGBAD at event %d\n" !k);
@@ -69,7 +69,9 @@ let () =
     | ["RUN"; lim; nsh; disc] ->
         in_run := true; s0 := !st; first := []; its := []; cur := None;
         rc := { rc_lim = (if lim = "-1" then None else Some (nat_of_int (int_of_string lim))); rc_nshell = nat_of_int (int_of_string nsh); rc_discard = (disc = "1") }
-    | ["IT"; t; n] -> close_it (); cur := Some (t = "1", n = "1", []); trig_pending := true
+    | ["IT"; t; n] -> close_it (); cur := Some (t = "1", n = "1", false, []); trig_pending := true
+    (* verdict of the stopping rule f_live <= target after the exploration batch of the current iteration *)
+    | ["FL"; b] -> (match !cur with Some (t, n, _, evs) -> cur := Some (t, n, b = "1", evs) | None -> ())
     | ["CC"; a; b; c; e] -> cc := Some { cc_nlive = nat_of_int (int_of_string a); cc_nupdate = z_of_int (int_of_string b); cc_nlikenew = nat_of_int (int_of_string c); cc_npmin = nat_of_int (int_of_string e) }
     | ["VR"; v; r] -> vt := v_add (pos_of_int (int_of_string v)) (z_of_int (int_of_string r)) !vt
     | ["NI"; v] -> ni := pos_of_int (int_of_string v)
@@ -77,7 +79,7 @@ let () =
         close_it (); in_run := false;
         (match !s0 with
          | None -> print_endline "RUNBAD no-state"
-         | Some s -> (match run_call_t !tbl !nb !rc (List.rev !first) (List.rev !its) (ft = "1") (fn = "1") s with
+         | Some s -> (match run_call_fl_t !tbl !nb !rc (List.rev !first) (List.rev !its) (ft = "1") (fn = "1") s with
             | None -> Printf.printf "RUNBAD rejected iterations=%d\n" (List.length !its)
             | Some (s', r) ->
               if r <> (ret = "1") then Printf.printf "RUNBAD return model=%b implementation=%s\n" r ret
